@@ -397,6 +397,12 @@ class Describer:
             a = args[0]
             if a[0] in ("cp", "mv") and len(a[1]) == 1:
                 dd = self.b.single_def(a[1][0])
+                if dd and dd[2] == "A" and dd[3][2][0] == "agg" and dd[3][2][1].get("k") == "array" and dd[3][2][2]:
+                    # `[buf[o], buf[o + 1], buf[o + 2], buf[o + 3]]`: consecutive elements of one slice
+                    S = self.consecutive_elems([self.value_of(o, depth + 1) for o in dd[3][2][2]])
+                    if S is not None:
+                        return (m.group(1), S)
+                    return None
                 if dd and dd[2] == "A" and dd[3][2][0] == "use":
                     src = dd[3][2][1]
                     if src[0] in ("cp", "mv") and len(src[1]) == 2 and src[1][1] == "*":
@@ -408,6 +414,38 @@ class Describer:
             rd = self.rets(t[1]["id"])
             if rd is not None:
                 return self.subst_value(rd, args, depth + 1)
+        return None
+
+    @staticmethod
+    def _split_index(D):
+        """index descriptor -> (symbolic part or None, constant part)"""
+        if D is None:
+            return None
+        if D[0] == "k":
+            return (None, D[1])
+        if D[0] == "bin" and D[1] == "Add" and D[3][0] == "k":
+            return (D[2], D[3][1])
+        if D[0] == "bin" and D[1] == "Add" and D[2][0] == "k":
+            return (D[3], D[2][1])
+        return (D, 0)
+
+    def consecutive_elems(self, ds):
+        """slice descriptor for a list of element descriptors elem(S, i0), elem(S, i0 + 1), ... of one slice S"""
+        if not ds or any(d is None or d[0] != "elem" for d in ds):
+            return None
+        S = ds[0][1]
+        first = self._split_index(ds[0][2])
+        if first is None:
+            return None
+        for k, d in enumerate(ds):
+            sp = self._split_index(d[2])
+            if d[1] != S or sp is None or sp[0] != first[0] or sp[1] != first[1] + k:
+                return None
+        n = len(ds)
+        if first[0] is None:
+            return compose(S, first[1], first[1] + n)
+        if first[0][0] == "pv":
+            return ("subp", S, first[0][1], first[1], first[1] + n)
         return None
 
     def iterated_slice(self, l, depth=0):
